@@ -2,7 +2,10 @@
 //! Drives the real `RatchetSecret` / `DecryptionRatchet` (real HKDF) and reports, for every answer,
 //! WHICH sender generation's key material it equals.
 //!
-//! Request: `<fwd> <ooo> <tok>*`, tok = `<g>` | `<g>/<fwd>/<ooo>`.
+//! Request: `[@<base>] <fwd> <ooo> <tok>*`, tok = `<g>` | `<g>/<fwd>/<ooo>`. With `@<base>` the receiver
+//! (and the sender chain) start at head generation `base` with an empty past queue — the state a single
+//! accepted jump to `base - 1` with tolerance 0 leaves behind; built through serde so that histories at
+//! the edge of the `u32` domain are reachable without 2^32 HKDF steps.
 //! Answer:  per tok `k<n>` | `E:future|E:past|E:oob|E:reuse`, then `| h<head> <past queue>`.
 use hc::serde_json::{self, Value};
 use hc::{Args, Out, Rng, Tier};
@@ -24,10 +27,15 @@ fn secret_from(bytes: [u8; 32]) -> Secret<32> {
 }
 
 /// Sender side: key material (as canonical json text) of generations 0..n → generation.
-fn sender_keys(seed: [u8; 32], n: u32) -> HashMap<String, u32> {
+fn sender_keys(seed: [u8; 32], base: u32, n: u32) -> HashMap<String, u32> {
     let mut m = HashMap::new();
     let mut s = RatchetSecret::init(secret_from(seed));
-    for i in 0..n {
+    if base > 0 {
+        let mut v = serde_json::to_value(&s).unwrap();
+        v["generation"] = Value::from(base);
+        s = serde_json::from_value(v).expect("sender state via serde");
+    }
+    for i in base..base.saturating_add(n) {
         let (s2, generation, km) = RatchetSecret::ratchet_forward(s).expect("hkdf");
         assert_eq!(generation, i);
         m.insert(serde_json::to_string(&km).unwrap(), i);
@@ -50,11 +58,11 @@ struct CaseResult {
     stats: Vec<&'static str>,
 }
 
-fn run_case(seed: [u8; 32], reqs: &[Req], fixed: bool) -> CaseResult {
+fn run_case(seed: [u8; 32], base: u32, reqs: &[Req], fixed: bool) -> CaseResult {
     // Enough sender generations to name every key the receiver can possibly produce.
     let mut top: u64 = 0;
     {
-        let mut head: u64 = 0;
+        let mut head: u64 = base as u64;
         for r in reqs {
             if (r.g as u64) <= head + r.fwd as u64 && r.g as u64 >= head {
                 head = r.g as u64 + 1;
@@ -62,12 +70,17 @@ fn run_case(seed: [u8; 32], reqs: &[Req], fixed: bool) -> CaseResult {
             top = top.max(head);
         }
     }
-    let keys = sender_keys(seed, top as u32 + 2);
+    let keys = sender_keys(seed, base, (top.max(base as u64) - base as u64) as u32 + 2);
     let mut y = DecryptionRatchet::init(secret_from(seed));
+    if base > 0 {
+        let mut v = serde_json::to_value(&y).unwrap();
+        v["ratchet_head"]["generation"] = Value::from(base);
+        y = serde_json::from_value(v).expect("receiver state via serde");
+    }
     let mut out = vec![];
     // Oracle state, judged on the implementation's own answers only.
     let mut handed: BTreeSet<u32> = BTreeSet::new();
-    let mut head: u64 = 0; // 1 + largest generation handed out
+    let mut head: u64 = base as u64; // 1 + largest generation handed out (`base` at the start)
     let mut fail: Option<(String, String)> = None;
     let mut stats = vec![];
     let mut ooo_success = false;
@@ -174,8 +187,8 @@ fn run_case(seed: [u8; 32], reqs: &[Req], fixed: bool) -> CaseResult {
     CaseResult { answer: out.join(" "), nontrivial: ooo_success && rejected, fail, stats }
 }
 
-fn req_line(fwd: u32, ooo: u32, reqs: &[Req]) -> String {
-    let mut s = format!("{fwd} {ooo}");
+fn req_line(base: u32, fwd: u32, ooo: u32, reqs: &[Req]) -> String {
+    let mut s = if base > 0 { format!("@{base} {fwd} {ooo}") } else { format!("{fwd} {ooo}") };
     for r in reqs {
         if r.own {
             s.push_str(&format!(" {}/{}/{}", r.g, r.fwd, r.ooo));
@@ -186,8 +199,15 @@ fn req_line(fwd: u32, ooo: u32, reqs: &[Req]) -> String {
     s
 }
 
-fn parse_line(line: &str) -> Option<(u32, u32, Vec<Req>)> {
-    let mut it = line.split_whitespace();
+fn parse_line(line: &str) -> Option<(u32, u32, u32, Vec<Req>)> {
+    let mut it = line.split_whitespace().peekable();
+    let mut base: u32 = 0;
+    if let Some(t) = it.peek() {
+        if let Some(b) = t.strip_prefix('@') {
+            base = b.parse().ok()?;
+            it.next();
+        }
+    }
     let fwd: u32 = it.next()?.parse().ok()?;
     let ooo: u32 = it.next()?.parse().ok()?;
     let mut reqs = vec![];
@@ -199,13 +219,17 @@ fn parse_line(line: &str) -> Option<(u32, u32, Vec<Req>)> {
             _ => return None,
         }
     }
-    Some((fwd, ooo, reqs))
+    Some((base, fwd, ooo, reqs))
 }
 
 fn emit(out: &mut Out, seed: [u8; 32], fwd: u32, ooo: u32, reqs: &[Req], kind: &str) {
-    let line = req_line(fwd, ooo, reqs);
+    emit_at(out, seed, 0, fwd, ooo, reqs, kind)
+}
+
+fn emit_at(out: &mut Out, seed: [u8; 32], base: u32, fwd: u32, ooo: u32, reqs: &[Req], kind: &str) {
+    let line = req_line(base, fwd, ooo, reqs);
     let fixed = reqs.iter().all(|r| !r.own);
-    let r = match hc::catch(|| run_case(seed, reqs, fixed)) {
+    let r = match hc::catch(|| run_case(seed, base, reqs, fixed)) {
         Ok(r) => r,
         Err(p) => CaseResult { answer: "PANIC".into(), nontrivial: false, fail: Some(("panic".into(), p)), stats: vec![] },
     };
@@ -300,6 +324,33 @@ fn random_case(out: &mut Out, rng: &mut Rng, wide: bool) {
     emit(out, seed, fwd, ooo, &reqs, if vary { "random-varying-windows" } else if wide { "random-wide" } else { "random-small" });
 }
 
+/// Histories at the edge of the `u32` domain: the receiver starts `d` generations below `u32::MAX`
+/// (state via serde), every requested generation is in `base ..= u32::MAX - 1` (the claim's domain:
+/// `c34_u32_head_bounded`), forward distances are chosen on both sides of the headroom conjunct
+/// `generation_head < u32::MAX - maximum_forward_distance` (small, exactly at the edge, `u32::MAX`).
+fn edge_case(out: &mut Out, rng: &mut Rng) {
+    let mut seed = [0u8; 32];
+    seed.copy_from_slice(&rng.bytes(32));
+    let d = rng.range(1, 12) as u32;
+    let base = u32::MAX - d;
+    let fwd = match rng.below(5) {
+        0 => rng.range(0, 3) as u32,
+        1 => d.saturating_sub(rng.below(3) as u32),
+        2 => d + rng.below(3) as u32,
+        3 => u32::MAX - rng.below(2) as u32,
+        _ => rng.range(0, 16) as u32,
+    };
+    let ooo = rng.range(0, 12) as u32;
+    let len = rng.range(1, 14) as usize;
+    let mut reqs = vec![];
+    for _ in 0..len {
+        // any generation of the domain from `base` to `u32::MAX - 1`, repeated ones included
+        let g = base + rng.below(d as u64) as u32;
+        reqs.push(Req { g, fwd, ooo, own: false });
+    }
+    emit_at(out, seed, base, fwd, ooo, &reqs, "u32-edge");
+}
+
 fn main() {
     let args = Args::parse();
     let mut out = Out::new(&args.out);
@@ -309,7 +360,7 @@ fn main() {
         let v: Value = serde_json::from_str(&text).unwrap();
         let req = v["request"].as_str().unwrap().to_string();
         match parse_line(&req) {
-            Some((f, o, reqs)) => emit(&mut out, seed0, f, o, &reqs, "replay"),
+            Some((b, f, o, reqs)) => emit_at(&mut out, seed0, b, f, o, &reqs, "replay"),
             None => {
                 out.case(&req, "bad-op", false);
             }
@@ -340,13 +391,19 @@ fn main() {
     for _ in 0..nwide {
         random_case(&mut out, &mut rng, true);
     }
+    // the edge of the u32 domain, incl. the last admissible generation u32::MAX - 1 from head u32::MAX - 1
+    emit_at(&mut out, seed0, u32::MAX - 1, 0, 0, &[Req { g: u32::MAX - 1, fwd: 0, ooo: 0, own: false }], "u32-edge");
+    emit_at(&mut out, seed0, u32::MAX - 3, 1, 2, &[u32::MAX - 2, u32::MAX - 3, u32::MAX - 1, u32::MAX - 1].map(|g| Req { g, fwd: 1, ooo: 2, own: false }), "u32-edge");
+    for _ in 0..nsmall / 2 {
+        edge_case(&mut out, &mut rng);
+    }
     // malformed request stream: the model driver must answer `bad-op`, never a default
-    for bad in ["", "x 1 2", "3", "2 2 1/2", "2 2 1/a/3", "2 2 -1"] {
+    for bad in ["", "x 1 2", "3", "2 2 1/2", "2 2 1/a/3", "2 2 -1", "@ 1 1 0", "@x 1 1 0"] {
         out.case(bad, "bad-op", false);
         out.count("kind=malformed-line");
     }
     out.finish(
-        "exhaustive: every permutation of generations {0..n-1} followed by a second request for every generation 0..n, for every (fwd, ooo) in {0..w}^2 (quick n=6 w=4, thorough n=8 w=6); random: mostly-increasing deliveries with reordering, loss, duplicates, too-far jumps, too-late arrivals and huge generations, windows up to 64, generations up to 400, a quarter with per-call windows. non-trivial = history with at least one successful out-of-order (past) request and at least one rejection",
+        "exhaustive: every permutation of generations {0..n-1} followed by a second request for every generation 0..n, for every (fwd, ooo) in {0..w}^2 (quick n=6 w=4, thorough n=8 w=6); random: mostly-increasing deliveries with reordering, loss, duplicates, too-far jumps, too-late arrivals and huge generations, windows up to 64, generations up to 400, a quarter with per-call windows; u32-edge: receiver and sender started (through serde) 1..12 generations below u32::MAX, requests anywhere in base..=u32::MAX-1 in any order with repeats, forward distances below / at / above the headroom guard and u32::MAX itself. non-trivial = history with at least one successful out-of-order (past) request and at least one rejection",
         true,
     );
 }
